@@ -160,6 +160,9 @@ int main(int argc, char** argv) {
             c.exact = (L + cyc) % 2 == 0; c.problem = ex; c.take = (cyc + ex) % 3 == 0; c.dirbc = (L + ex) % 2 == 0;
             cases.push_back(c);
         }
+        // process-wide state (function-local statics, globals): a solve on a large grid with each norm type comes first, solves on small
+        // grids that stop on the ABSOLUTE tolerance follow later in the same process (see the tail of this list)
+        for (int nt = 0; nt < 3; nt++) { Config c; c.nr_exp = 6; c.ntheta_exp = 6; c.maxit = 150; c.norm = nt; c.use_rtol = false; c.atol = 1e-5; c.extrap = nt % 2; cases.push_back(c); }
         { Config c; c.nr_exp = 4; c.ntheta_exp = 4; c.maxit = 0; c.fmg = 1; c.fmg_iters = 0; cases.push_back(c); }          // FMG only
         { Config c; c.nr_exp = 3; c.ntheta_exp = 3; c.maxit = 0; c.fmg = 1; c.fmg_iters = 0; cases.push_back(c); }          // two levels, no cycles
         { Config c; c.nr_exp = 5; c.ntheta_exp = 5; c.maxit = 150; c.extrap = 3; c.cycle = 2; c.fmg = 1; c.fmg_cycle = 2; c.fmg_iters = 3; cases.push_back(c); } // convergence_order pattern
@@ -195,6 +198,10 @@ int main(int argc, char** argv) {
             c.maxit = rng.range(0, 3) == 0 ? 150 : rng.range(0, 4); c.tol = rng.range(0, 3) != 0; c.norm = rng.range(0, 2);
             c.exact = rng.coin(); c.dirbc = rng.coin(); c.take = rng.coin(); c.problem = rng.range(0, 2); c.threads = rng.range(1, 4);
             if (c.maxit == 150 && !c.tol) c.maxit = 4;
+            cases.push_back(c);
+        }
+        for (int nt = 0; nt < 3; nt++) for (int sz = 3; sz <= 4; sz++) {
+            Config c; c.nr_exp = sz; c.ntheta_exp = sz + 1; c.maxit = 150; c.norm = nt; c.use_rtol = false; c.atol = 1e-6; c.extrap = (nt + sz) % 2; c.cycle = nt;
             cases.push_back(c);
         }
         int k = 0;
